@@ -295,6 +295,12 @@ class ClassInterp(object):
                 return Pair(base.re, base.im)
             if e.attr == '_mpq_' and isinstance(base, Mpq):
                 return Tuple([PyInt(base.pcls), Sym({'q': 1})])
+            if e.attr in ('denominator', 'numerator') and isinstance(base, Mpq):
+                raise Raised('AttributeError (mpq has no attribute %s)' % e.attr)
+            if e.attr == 'denominator' and isinstance(base, PyInt):
+                return Int(1)
+            if e.attr == 'numerator' and isinstance(base, PyInt):
+                return base
             if e.attr in ('real', 'imag'):
                 if isinstance(base, MpcObj):
                     return MpfObj(base.re if e.attr == 'real' else base.im)
@@ -408,6 +414,9 @@ class ClassInterp(object):
 
     def call(self, e, env):
         fn = norm(e.func)
+        if fn == 'isinstance' and len(e.args) == 2 and norm(e.args[1]) == 'numbers.Rational':
+            # Python ints and (registered in rational.py) mpq are Rationals; mpf / mpc objects are not
+            return Int(isinstance(self.ev(e.args[0], env), (PyInt, Mpq)))
         args = [self.ev(a, env) for a in e.args]
         if fn == 'hasattr':
             what = e.args[1].value
